@@ -35,7 +35,7 @@ impl Check for C14 {
     }
     fn rule(&self) -> String {
         "every entry point with a buffer (interp_into, interp_array_into) of Interp1D (Linear, CubicSpline) and Interp2D (Bilinear), query dim \
-         types Ix1, Ix2, Ix3 and IxDyn (rank 0..3), data rank 1..4 (static and dynamic), axis lengths 0..3. The buffer is a window (offset 0..1, \
+         types Ix1, Ix2, Ix3 and IxDyn (rank 0..3), data rank 1..4 (static and dynamic), query axis lengths 0..9 (rank 1) / 0..4. The buffer is a window (offset 0..1, \
          stride 1..3 per axis) into a larger array filled with a poison bit pattern (a NaN payload no computation produces). Buffer shapes: the \
          required shape; one axis -1 / +1; trailing axes permuted; query axes permuted; a different shape with the same element count; wrong rank \
          (dynamic); 2-D: xs / ys of different shapes. All queries are in range. Oracle: required shape => Ok, no poison left in the window, window \
@@ -128,7 +128,7 @@ fn run<T: Flt>(src: &mut Src, obs: &mut Obs, two_d: bool) -> Result<(), Fail> {
     // query
     let qd = if single { QDim::S0 } else { src.pick(&[QDim::S1, QDim::S1, QDim::S2, QDim::S3, QDim::Dyn, QDim::Dyn]) };
     let qrank = if single { 0 } else { qd.static_rank().unwrap_or_else(|| src.usize_in(0, 3)) };
-    let qshape: Vec<usize> = if single { vec![] } else { (0..qrank).map(|_| src.weighted(&[1, 3, 4, 3])).collect() };
+    let qshape: Vec<usize> = if single { vec![] } else { crate::gen1d::qshape(src, qrank) };
     if !single {
         obs.class(format!("qdim:{}", qd.name()));
     }
